@@ -148,7 +148,7 @@ def mul_scalar(Y1, Y2, use_stab=False):
         G = G1[:, None, :, :, None] * G2[None, :, :, None, :]
         G = G.reshape([G1.shape[0]*G2.shape[0], -1, G1.shape[-1]*G2.shape[-1]])
         G = np.sum(G, axis=1)
-        v = G.copy() if i == 0 else v @ G
+        v = np.array(G, dtype=float) if i == 0 else v @ G
 
         if use_stab:
             v, p = teneva.core_stab(v, p)
